@@ -81,6 +81,17 @@ fn structured_inputs(thorough: bool) -> Vec<String> {
   for f in &at { for r in &at { out.push(to_text(&json!({"mappings": [{"from": f, "repeat": r}]}))); out.push(to_text(&json!({"mappings": [{"from": ["CAPSLOCK", "J"], "to": f, "repeat": r}]}))); out.push(to_text(&json!({"mappings": [{"from": "LEFTSHIFT", "to": "@s"}, {"from": ["@s", "J"], "to": f, "absorbing": r}]}))); } }
   if thorough { for f in &at { for t in &at { for r in &at { out.push(to_text(&json!({"mappings": [{"from": f, "to": t, "repeat": r}]}))); out.push(to_text(&json!({"mappings": [{"from": f, "to": t, "absorbing": r}]}))); } } } }
   for k in &at { for d in &at { for i in &at { out.push(to_text(&json!({"mappings": [{"from": "J", "to": "K", "repeat": {"Special": {"keys": k, "delay_ms": d, "interval_ms": i}}}]}))); } } }
+  // (ii-b) sizes: deep nesting and long strings / lists around every power of two
+  for n in [1usize, 2, 3, 8, 16, 64, 126, 127, 128, 129, 130, 255, 256, 257, 1000, 5000] {
+    out.push("[".repeat(n)); out.push(format!("{}{}", "[".repeat(n), "]".repeat(n))); out.push(format!("{}1{}", "{\"a\":".repeat(n), "}".repeat(n)));
+    out.push(format!("{{\"mappings\":{}{}}}", "[".repeat(n), "]".repeat(n)));
+    out.push(to_text(&json!({"mappings": [{"from": {"row": "Q"}, "to": {"letters": "a".repeat(n)}}]})));
+    out.push(to_text(&json!({"mappings": [{"from": {"row": "Q"}, "to": {"letters": " ".repeat(n)}}]})));
+    out.push(to_text(&json!({"mappings": [{"from": std::iter::repeat("LEFTSHIFT").take(n).chain(std::iter::once("A")).collect::<Vec<_>>(), "to": "B"}]})));
+    out.push(to_text(&json!({"mappings": [{"from": "A", "to": std::iter::repeat("B").take(n).collect::<Vec<_>>()}]})));
+    out.push(to_text(&json!({"mappings": (0..n.min(300)).map(|i| json!({"from": ["CAPSLOCK", "J"], "to": if i % 2 == 0 { "LEFT" } else { "RIGHT" }})).collect::<Vec<_>>()})));
+    out.push(to_text(&json!({"mappings": [{"from": "J", "to": "K", "repeat": {"Special": {"keys": std::iter::repeat("F21").take(n).collect::<Vec<_>>(), "delay_ms": n, "interval_ms": n}}}]})));
+  }
   // (iii) structure-aware mutations of the seeds: all single mutations; thorough: all pairs within one mapping object
   for seed in seeds() {
     let mut ns = vec![]; nodes(&seed, &mut vec![], &mut ns);
